@@ -14,7 +14,7 @@ import (
 
 // Request is what the driver hands a worker process (path in $SIM_REQ).
 type Request struct {
-	Mode     string   `json:"mode"` // batch | exec | shrink
+	Mode     string   `json:"mode"` // batch | exec | shrink | plan
 	Property string   `json:"property"`
 	Tier     string   `json:"tier"`
 	Seeds    []uint64 `json:"seeds,omitempty"`
@@ -115,6 +115,18 @@ func Main(t *testing.T, e Engine) {
 				out.Sample = nil
 			}
 			emit(rec)
+		}
+	case "plan":
+		// the plans these seeds stand for, not executed (the driver attributes a
+		// worker death to the run that was in progress)
+		for _, seed := range req.Seeds {
+			genProp := req.Property
+			if g := os.Getenv("SIM_GENPROP"); g != "" {
+				genProp = g
+			}
+			plan := e.Generate(NewRng(seed), genProp, req.Tier)
+			plan.Engine, plan.Property, plan.Tier, plan.Seed = e.Name(), req.Property, req.Tier, seed
+			emit(&RunRecord{Seed: seed, NSteps: len(plan.Steps), Outcome: &Outcome{}, Plan: plan})
 		}
 	case "exec":
 		t0 := time.Now()
